@@ -44,9 +44,9 @@ TraceNext ==
 TraceSpec == TraceInit /\ [][TraceNext]_tvars
 
 Progress(t) == TLCGet(t)
+Bad == {t \in 1..NT : Progress(t) # Len(Traces[t].obs) + 1}
 TraceAccepted ==
     /\ \A t \in 1..NT : TLCGet(NT + t) = 2 => PrintT(<<"KFONLY", t>>)
-    /\ \A t \in 1..Len(Traces) :
-        \/ Progress(t) = Len(Traces[t].obs) + 1
-        \/ PrintT(<<"REJECTED", t, Progress(t)>>) /\ FALSE
+    /\ \A t \in Bad : PrintT(<<"REJECTED", t, Progress(t)>>)      \* all of them (PrintT is TRUE)
+    /\ Bad = {}
 =============================================================================
